@@ -300,7 +300,12 @@ func runC09(t *rapid.T) {
 	nextOffset := func() int64 {
 		if c.m.appended == -1 {
 			if rapid.IntRange(0, 2).Draw(t, "startNonZero") == 0 {
-				return int64(rapid.IntRange(1, 50).Draw(t, "startOffset"))
+				k := int64(rapid.IntRange(1, 50).Draw(t, "startOffset"))
+				// the follower-after-snapshot path: the DB's commit offset is the snapshot's (k-1)
+				if rapid.Bool().Draw(t, "snapshotCommit") {
+					c.cp.v.Store(k - 1)
+				}
+				return k
 			}
 			return 0
 		}
@@ -413,6 +418,11 @@ func runC09(t *rapid.T) {
 			default:
 				o = rapid.Int64Range(c.m.first, c.m.appended).Draw(t, "truncTo")
 			}
+			if cm := c.cp.v.Load(); o >= 0 && o < cm {
+				// committed entries are never truncated by the controllers: the commit offset the
+				// provider reports is <= the truncation point
+				c.cp.v.Store(o)
+			}
 			bases := segmentBases(c.walDir())
 			if o >= 0 && len(bases) > 1 && o < bases[len(bases)-1] {
 				c.crossSeg = true
@@ -427,6 +437,7 @@ func runC09(t *rapid.T) {
 			}
 			if o == -1 {
 				c.m.clear()
+				c.cp.v.Store(-1)
 			} else {
 				c.m.truncate(o)
 			}
@@ -437,6 +448,7 @@ func runC09(t *rapid.T) {
 				t.Fatalf("Clear: %v; ops=%v", err, c.ops)
 			}
 			c.m.clear()
+			c.cp.v.Store(-1)
 		},
 		"reopen": func(t *rapid.T) {
 			c.logf("Close+reopen")
